@@ -663,6 +663,7 @@ TRIGGERS = {
     "remove_dead_ifs": "def f(a):\n    if True:\n        print('t')\n    else:\n        print('e')\n    if False:\n        print('never')\n    elif a:\n        print('a')\n    if 0:\n        print('zero')\n    if a or True:\n        print('or')\n    while False:\n        print('w')\n    return 1 if True else 2\n\n\nprint(f(0), f(1))\n",
     "delete_unreachable_code": "def f(a):\n    for i in range(3):\n        if i == a:\n            break\n        continue\n        print('dead')\n    else:\n        return 'else'\n    return i\n    print('dead')\n\n\ndef g(a):\n    while True:\n        a += 1\n        if a > 3:\n            break\n    return a\n\n\ndef h(a):\n    try:\n        if a:\n            raise ValueError(a)\n        return 'ok'\n    except ValueError:\n        return 'err'\n    return 'after'\n\n\nprint(f(1), f(7), g(0), h(0), h(1))\n",
     "loop_else_break": "def first_gap(rows):\n    for row in [1, 2, 3]:\n        for cell in rows:\n            if cell == row:\n                break\n        else:\n            break\n        return row\n    print('no row matched')\n    return -1\n\n\ndef drain(limit):\n    total = 0\n    for step in (1, 2, 3, 4):\n        n = step\n        while n < limit:\n            n += 2\n        else:\n            total += n\n            continue\n        return total\n    print('drained', total)\n    return total * 2\n\n\nprint(first_gap([1]), first_gap([5]), first_gap([2, 1]))\nprint(drain(0), drain(4))\n",
+    "match_case_exits": "def command_loop(cmds):\n    log = []\n    it = iter(cmds)\n    while True:\n        match next(it):\n            case 'quit':\n                break\n            case 'skip':\n                continue\n            case other:\n                log.append(other)\n    print('log', log)\n    return len(log)\n\n\ndef first_usable(rows):\n    for row in [1, 2, 3]:\n        match rows.get(row):\n            case None:\n                continue\n            case -1:\n                break\n            case _:\n                pass\n        return row\n    print('nothing usable')\n    return -1\n\n\nprint(command_loop(['a', 'skip', 'b', 'quit', 'c']))\nprint(first_usable({}), first_usable({2: 5}), first_usable({1: -1, 2: 5}))\n",
     "while_true_paths": "def count_up(limit):\n    count = 0\n    while True:\n        count += 1\n        if count > limit:\n            break\n    return count\n\n\ndef find(limit):\n    n = 0\n    while 1:\n        n += 2\n        if n > limit:\n            return n\n        if n == 4:\n            break\n    return -n\n\n\ndef with_try(k):\n    while True:\n        try:\n            if k > 2:\n                break\n            k += 1\n        finally:\n            print('f', k)\n    return k\n\n\nprint(count_up(3), find(1), find(10), with_try(0))\n",
     "raise_from": "def f(v):\n    try:\n        return int(v)\n    except ValueError:\n        raise RuntimeError('bad')\n\n\ntry:\n    f('x')\nexcept RuntimeError as e:\n    print(type(e).__name__, e, type(e.__cause__).__name__, type(e.__context__).__name__)\nprint(f('3'))\n",
     "undefine_unused": "def f(a):\n    x = a + 1\n    y = print('side')\n    z = [a for _ in range(2)]\n    x = 5\n    return x\n\n\ndef g():\n    a, b = 1, 2\n    c = d = 3\n    return b + d\n\n\nprint(f(1), g())\n",
